@@ -507,6 +507,19 @@ func rulePAIR4(w *World) []Ob {
 		body := e
 		if len(e.AnonFuncs) == 1 && returnsClosure(e) {
 			body = e.AnonFuncs[0]
+			// an iterator constructor does nothing but build the closure: everything (validation,
+			// configuration, growing) happens when the sequence is ranged over, on the tree as it is then
+			early := ""
+			allInstrs(e, func(in ssa.Instruction) {
+				if ci, ok := in.(ssa.CallInstruction); ok {
+					early = calleeString(ci.Common()) + " at " + p.InstrPos(in)
+				}
+			})
+			if early != "" {
+				l.bad(p.FuncID(e), "iterator constructor only builds the closure", p.Pos(e.Pos()), "work is done when the sequence is obtained ("+early+") instead of when it is ranged over: nodes added, or other operations run, in between are not reflected", "lazy")
+			} else {
+				l.ok(p.FuncID(e), "iterator constructor only builds the closure", p.Pos(e.Pos()), "no call outside the returned closure", true, "lazy")
+			}
 		}
 		fid := p.FuncID(body)
 		construct := "validateTreeRoot first"
